@@ -247,3 +247,5 @@ B("C20", "helper-scales-amplitude", "postprocessing.py", "    for hvsr in hvsrs:
 B("C20", "rejected-with-accepted-mask", "postprocessing.py", "to_plot = hvsr.valid_window_boolean_mask if valid else ~hvsr.valid_window_boolean_mask", "to_plot = hvsr.valid_window_boolean_mask if valid else hvsr.valid_window_boolean_mask")
 B("C20", "one-over-std", "postprocessing.py", "                    1/hvsr.mean_fn_frequency(distribution=distribution_fn),\n                    hvsr.std_fn_frequency(distribution=distribution_fn),", "                    1/hvsr.mean_fn_frequency(distribution=distribution_fn),\n                    1/hvsr.std_fn_frequency(distribution=distribution_fn),")
 B("C20", "hard-coded-distribution", "postprocessing.py", "    ax.plot(hvsr.frequency, hvsr.mean_curve(\n        distribution=distribution), **plot_kwargs)", "    ax.plot(hvsr.frequency, hvsr.mean_curve(\n        distribution=\"lognormal\"), **plot_kwargs)")
+B("C20", "summary-crossed-options", "postprocessing.py", "        plot_invalid_curves=plot_invalid_curves,\n        plot_mean_curve=plot_mean_curve,\n        plot_frequency_std=plot_frequency_std,\n        plot_peak_mean_curve=plot_mean_curve,", "        plot_invalid_curves=plot_peak_individual_invalid_curves,\n        plot_mean_curve=plot_mean_curve,\n        plot_frequency_std=plot_frequency_std,\n        plot_peak_mean_curve=plot_mean_curve,")
+B("C20", "summary-crossed-distribution", "postprocessing.py", "        distribution_mc=distribution_mc,\n        distribution_fn=distribution_fn,\n        plot_valid_curves=plot_valid_curves,", "        distribution_mc=distribution_fn,\n        distribution_fn=distribution_fn,\n        plot_valid_curves=plot_valid_curves,")
